@@ -209,6 +209,22 @@ def run(P, R, tier):
     tree_arith(P, R, HR, NR, meth)
     leaf_coverage(P, R, HR)
     build_totality(P, R, HR)
+    # GeometryArray.sindex indexes `self.bounds`: an element without finite coordinates must arrive as a NaN box (the only thing the tree treats as "no box");
+    # (inf, inf, -inf, -inf) passes the NaN tests and is reported as covered.  The bounds kernels are decided by C13's small-scope evaluation (called directly:
+    # C13 forwards C03, a forward here would be a cycle)
+    from rules import C13 as _C13
+    sub13 = type(R)(R.prop, R.tier)
+    try:
+        _C13.kernel_rules(P, sub13, tier)
+    except AnalysisError as e_:
+        if not __import__('report').unlisted(sub13.obs):
+            raise
+    n13 = 0
+    for o in sub13.obs:
+        if o.rule == 'C13.a':
+            n13 += 1
+            R._add('C03.c', (o.path, o.site.split('::')[-1]), None, o.status, '[C13.a] boxes handed to the index are NaN exactly for elements without finite coordinates: ' + o.detail, construct=o.construct, nontrivial=o.nontrivial)
+    R.floor('C03.c', 'bounds-kernel obligations (C13.a)', n13, 4)
     for m in (meth['intersects'], meth['covers_overlaps']):
         cursor_discipline(P, R, m)
         pairing(P, R, m)
